@@ -160,3 +160,22 @@ Theorem C01_selection_wf_f32 : forall (p : profile) (a : algo) (meth : method) s
   \/ run_with F32 p a meth s d m n = Panic PNaN.
 Proof. exact selection_total_wf_f32. Qed.
 Print Assumptions C01_selection_wf_f32.
+
+(* ---- generic (what linkage runs for centroid / median): well formed whenever
+   it returns, under a strict weak order, reflexive `==`, and an update that
+   keeps values below the max_value sentinel ---- *)
+Require Import KV.Model.Generic KV.Proofs.GenericInv.
+Theorem C01_generic_wf : forall (T : Type) (K : kops T) (p : profile) (meth : method),
+  (forall a, k_ltb K a a = false) ->
+  (forall a b c, k_ltb K a b = true -> k_ltb K b c = true -> k_ltb K a c = true) ->
+  (forall a b c, k_ltb K a b = false -> k_ltb K b c = false -> k_ltb K a c = false) ->
+  (forall a, k_eqb K a a = true) ->
+  (forall va vb md sa sb sx, k_ltb K va (k_max K) = true -> k_ltb K vb (k_max K) = true -> k_ltb K md (k_max K) = true ->
+     k_ltb K (k_upd K va vb md sa sb sx) (k_max K) = true) ->
+  forall s d (m : list T) (n : N),
+  (n < two32)%N -> wf_shape n (N.of_nat (length m)) ->
+  Forall (fun v => k_ltb K v (k_max K) = true) (square_all K m) ->
+  (exists s' d' m', generic_with K p meth s d m n = Ok (s', d', m') /\ wf_dend (d_obs d') (d_steps d'))
+  \/ generic_with K p meth s d m n = Panic PNaN.
+Proof. exact generic_total_wf. Qed.
+Print Assumptions C01_generic_wf.
